@@ -1,5 +1,5 @@
 //@PROBE file=src/utils/kalman/kalman_2d_box.rs test=verif_probe_kalman_box_c07 clauses=kalman_box
-//@BOUND 60 pseudo-random trajectories of 40..=300 steps (moving, accelerating, jittering, growing/shrinking boxes; rotated, axis-aligned (angle None) and mixed; coordinates 1..1e4; steps without a measurement; plus boxes standing still on exactly representable values for 8 frames - zero innovation - and then accelerating, with the distance of offset boxes compared at every step), position/velocity weights {1/20, 1/160}, {1/10, 1/80}, {0.5, 0.05}; after every initiate / predict / update the f32 state is compared with an independent f64 textbook Kalman filter (tolerance 2e-3 relative + 2e-3 absolute on the mean; distance 1% + 1e-3), covariance symmetric and positive definite (f64 Cholesky)
+//@BOUND 60 pseudo-random trajectories of 40..=300 steps (moving, accelerating, jittering, growing/shrinking boxes; rotated, axis-aligned (angle None) and mixed; coordinates 1..1e4; steps without a measurement; plus boxes standing still on exactly representable values for 8 frames - zero innovation - and then accelerating, with the distance of offset boxes compared at every step; a quickly receding box whose height estimate overshoots below zero, also in frame-normalised coordinates and 8 times larger), position/velocity weights {1/20, 1/160}, {1/10, 1/80}, {0.5, 0.05}; after every initiate / predict / update the f32 state is compared with an independent f64 textbook Kalman filter (tolerance 2e-3 relative + 2e-3 absolute on the mean; distance 1% + 1e-3), covariance symmetric and positive definite (f64 Cholesky)
 #[cfg(test)]
 mod verif_probe_kalman_box_c07 {
     // Bounded stand-in for "the box filter produces the mean of the standard linear constant-velocity Kalman filter with
@@ -61,6 +61,17 @@ mod verif_probe_kalman_box_c07 {
     }
     fn z_of(b: &Universal2DBox) -> [f64; M] { [b.xc as f64, b.yc as f64, b.angle.unwrap_or(0.0) as f64, b.aspect as f64, b.height as f64] }
 
+    /// the mean only (used where the variances collapse by four orders of magnitude within a few steps: the f32 covariance then carries
+    /// cancellation noise relative to its EARLIER size, which is rounding, not a property violation; it is judged through the distances)
+    fn compare_mean(ctx: &str, what: &str, step: usize, s: &KalmanState<DIM_2D_BOX_X2>, r: &Ref, scale: f64, failures: &mut Vec<String>) {
+        for i in 0..N {
+            let (g, w) = (s.mean[i] as f64, r.m[i]);
+            if !((g - w).abs() <= 2e-3 * w.abs() + 2e-3 * scale) {
+                failures.push(format!("{} step={} after {}: kalman_box.mean_is_the_textbook_filter_mean: mean[{}] = {} but the reference constant-velocity Kalman filter gives {}", ctx, step, what, i, g, w));
+                return;
+            }
+        }
+    }
     fn compare(ctx: &str, what: &str, step: usize, s: &KalmanState<DIM_2D_BOX_X2>, r: &Ref, failures: &mut Vec<String>) {
         for i in 0..N {
             let (g, w) = (s.mean[i] as f64, r.m[i]);
@@ -155,6 +166,30 @@ mod verif_probe_kalman_box_c07 {
                 }
             }
         }
+        // ---- scripted trajectories in corner regimes of the height-scaled noise model: (a) a box that recedes quickly (its height estimate
+        // overshoots below 1 and below 0), (b) the same scene in frame-normalised coordinates (all sizes far below 1), (c) 8 times larger
+        let heights = [120.0f32, 80.0, 45.0, 18.0, 4.0, 1.0, 1.0, 1.0, 1.0, 1.5, 2.0, 2.0];
+        for scale in [1.0f32, 1.0 / 1024.0, 8.0] { for (wp, wv) in [(1.0f32 / 20.0, 1.0f32 / 160.0), (0.1, 0.02)] { for ang in [Some(0.3f32), None] {
+            let f = Universal2DBoxKalmanFilter::new(wp, wv);
+            let ctx = format!("PROBE input: kalman box receding quickly (heights {:?} x {}), weights=({}, {}), angle {:?}", heights, scale, wp, wv, ang);
+            let mk = |k: usize| Universal2DBox::new(scale * (600.0 + 4.0 * k as f32), scale * (400.0 - 2.5 * k as f32), ang, 0.5, scale * heights[k]);
+            let mut s = f.initiate(&mk(0));
+            let mut r = Ref::initiate(wp as f64, wv as f64, z_of(&mk(0)));
+            let before = failures.len();
+            for k in 1..heights.len() {
+                if failures.len() > before { break; }
+                cases += 1;
+                s = f.predict(&s); r.predict();
+                compare_mean(&ctx, "predict", k, &s, &r, scale as f64, &mut failures);
+                let z = mk(k);
+                for probe in [z.clone(), Universal2DBox::new(z.xc + scale * 3.0, z.yc - scale * 2.0, ang, 0.5, z.height * 1.1)] {
+                    let (dg, dw) = (f.distance(s, &probe) as f64, r.distance(z_of(&probe)));
+                    if !((dg - dw).abs() <= 2e-2 * dw.abs() + 1e-2) { failures.push(format!("{} step={}: kalman_box.distance_is_squared_mahalanobis: distance {} but the reference gives {}", ctx, k, dg, dw)); break; }
+                }
+                s = f.update(&s, &z); r.update(z_of(&z));
+                compare_mean(&ctx, "update", k, &s, &r, scale as f64, &mut failures);
+            }
+        } } }
         eprintln!("PROBE cases={} nontrivial={}", cases, nontrivial);
         for f in failures.iter().take(12) { eprintln!("{}", f); }
         assert!(failures.is_empty(), "PROBE found {} failing inputs; first: {}", failures.len(), failures[0]);
